@@ -39,8 +39,8 @@ VectorCheck(e) ==
   ELSE
   LET v == Verdict(s)  lane == Lane(s) IN
   (* the verdict of the composed ante handler *)
-  IF v = "reject" /\ g.accepted THEN <<"Isolation", "accepted-but-must-be-refused:" \o Reason(s) \o ":" \o s.mode>>
-  ELSE IF v = "accept" /\ ~g.accepted THEN <<"Acceptance", "refused-but-admissible:" \o lane \o ":" \o s.mode>>
+  IF v = "reject" /\ g.accepted THEN <<"Isolation", "accepted-but-must-be-refused:" \o Reason(s)>>
+  ELSE IF v = "accept" /\ ~g.accepted THEN <<"Acceptance", "refused-but-admissible:" \o lane>>
   (* the EVM message handler ran => Ethereum lane, admitted *)
   ELSE IF g.receipt /\ ~MayRunEvm(s) THEN <<"Isolation", "evm-handler-ran-outside-the-ethereum-lane">>
   ELSE IF g.receipt /\ ~g.accepted THEN <<"Isolation", "evm-handler-ran-for-a-refused-transaction">>
